@@ -2,6 +2,8 @@
 
 Bounded-exhaustive enumeration of note lists x control streams x thresholds x (ppq, mpq), of the numeric
 types in which the times and controller values are handed over (Python / numpy integers and floats), of
+the pitch as a value dimension (every MIDI pitch 0..127 and the ends of the pitch / velocity / channel ranges on the
+small pedal families, `pitch-range`), of
 threshold-assignment histories, of edit-then-query-again sequences on one part (in-place edits of the
 notes / resolution / threshold with note_array() after every step, `mc/c14_edits.py`), of notes carrying a
 stale sounding end (sound_off keys in the note dictionaries, in-place edits of the notes / the control stream
@@ -64,6 +66,8 @@ ASSUMPTIONS = [
     "the value (Python int/float, numpy integer and floating scalars): the statement quantifies over the notes and times, "
     "not over their representation; sound_off and the note array are read with float() and compared with the same "
     "reference as for Python floats",
+    "pitch-range: every midi_pitch and velocity of 0..127 (the range PerformedNote validates) and every channel 0..15 is a "
+    "valid note field; the sounding ends do not depend on the pitch value, only on which notes share a pitch",
     "mido/numpy are trusted",
 ]
 CHUNK = 40
@@ -429,6 +433,64 @@ def stale_state0(case):
             "ctrl": [[num, F(t), v] for num, t, v in case["ctrl"]], "thr": case["thr"]}
 
 
+VELX = [0, 127, 1]      # velocities of the pitch-range space: both ends of the valid range 0..127
+CHX = (0, 15)           # channels of the pitch-range space: both ends of the MIDI channel range
+PB2 = [0, 127]          # both ends of the MIDI pitch range
+PB4 = [0, 1, 126, 127]
+IVG = [(0, 1), (1, 2), (0, 2), (2, 3)]   # a later note after a gap: a re-strike strictly after a release
+IVT = [(0, 1), (1, 2), (2, 2)]
+PR_KW = dict(thr=[0, 64, 127], walk="updown")
+
+
+def pitch_range_cases(tier):
+    """the pitch as a value dimension of the small pedal families: (a) every MIDI pitch, (b) the ends of the range"""
+    thorough = tier == "thorough"
+    k = 0
+
+    def case(pitches, ivs, cs):
+        nl = [[pitches[i], CHX[i % 2], fs(ivs[i][0]), fs(ivs[i][1])] for i in range(len(pitches))]
+        c = pedal_case(nl, cs, k, **PR_KW)
+        c["vels"] = [VELX[i % 3] for i in range(len(pitches))]
+        return c
+
+    # (a) every pitch 0..127
+    css = [[[64, "1/2", 127], [64, "5/2", 0]], [[64, "1/2", 127], [64, "3/2", 0]]]
+    if thorough:
+        css += [[[64, "1/2", 127]], [[64, "3/2", 127], [64, "7/2", 0]], [[67, "1/2", 127], [64, "1", 100], [64, "5/2", 64]]]
+    for p in range(128):
+        for pp in ((p, p), (p, 127 - p)):
+            for ivs in product(IVG, repeat=2):
+                for cs in css:
+                    k += 1
+                    yield case(pp, ivs, cs)
+        if thorough:
+            for pp in ((p, p, p), (p, 127 - p, p)):
+                for ivs in product(IVT, repeat=3):
+                    for cs in css[:2]:
+                        k += 1
+                        yield case(pp, ivs, cs)
+    # (b) the ends of the range
+    kinds = K4 if thorough else [[64, 127], [64, 0]]
+    css2 = control_streams(2, [H(1), H(3), H(5)], kinds)
+    css3 = css2 if thorough else control_streams(2, [H(1), H(5)], kinds)
+    iv = intervals(G3)
+    for p in PB2:
+        for a in iv:
+            for cs in css2:
+                k += 1
+                yield case((p,), (a,), cs)
+    for pp in product(PB4 if thorough else PB2, repeat=2):
+        for ivs in product(iv, repeat=2):
+            for cs in css2:
+                k += 1
+                yield case(pp, ivs, cs)
+    for pp in product(PB2, repeat=3):
+        for ivs in product(IVT, repeat=3):
+            for cs in css3:
+                k += 1
+                yield case(pp, ivs, cs)
+
+
 def spaces(tier, seed):
     sp = []
     thorough = tier == "thorough"
@@ -483,6 +545,21 @@ def spaces(tier, seed):
         "threshold-x-value", [{"k": "tv", "pat": p, "v": v} for p in range(3) for v in range(128)], True,
         "3 fixed notes, 3 pedal patterns with one value v in 0..127; every threshold 0..127 on a fresh part and along an "
         "ascending+descending assignment walk"))
+    sp.append(Space(
+        "pitch-range", (lambda: pitch_range_cases(tier)), True,
+        "the pitch (and velocity / channel) as a value dimension of the small pedal families, over the whole valid range "
+        "instead of 60/61: (a) EVERY MIDI pitch p in 0..127 x pitch patterns (p,p) and (p,127-p) x every ordered pair of "
+        "intervals from {(0,1),(1,2),(0,2),(2,3)} (re-strikes at and strictly after a release, overlaps, unsorted order) x "
+        + ("5 control streams (pedal pressed at .5 and lifted at 2.5 / at 1.5 / never lifted; pressed at 1.5, lifted at 3.5; cc67 + "
+           "pedal values 100, 64), + patterns (p,p,p) and (p,127-p,p) x every triple of intervals from {(0,1),(1,2),(2,2)} x the "
+           "first 2 streams" if thorough else "2 control streams (pedal pressed at .5, lifted at 2.5 / at 1.5)") +
+        "; (b) the ends of the range: 1 note of pitch 0 / 127 x the 6 intervals of grid 0..2; 2 notes, every ordered pitch pair "
+        "over " + ("{0,1,126,127}" if thorough else "{0,127}") + " x every ordered pair of the 6 intervals; 3 notes, every pitch "
+        "triple over {0,127} x every triple of intervals from {(0,1),(1,2),(2,2)}; x every stream of <=2 control events at "
+        "increasing times from {.5,1.5,2.5}" + ("" if thorough else " ({.5,2.5} for 3 notes)") + ", kinds cc64 in " +
+        ("{0,64,127} and cc67=127" if thorough else "{0,127}") +
+        ". Velocities 0,127,1 and channels 0,15 by note position (both ends of their ranges); thresholds {0,64,127} on a fresh "
+        "part + up/down assignment walk, note array + rebuild; (ppq,mpq) and tick keys cycled"))
     sp.append(Space(
         "note-array", na_cases(tier), True,
         "1-2 notes with on<=off over times {0,1/10,1/3,1/2,41/20}" + (" + {1/960,7/4}" if thorough else "") +
@@ -599,8 +676,11 @@ def note_types(scheme, i):
     raise ValueError(scheme)
 
 
-def build_part(notes, ctrl, thr, pq, ticks, types=None, sos=None):
+def build_part(notes, ctrl, thr, pq, ticks, types=None, sos=None, vels=None):
     from partitura.performance import PerformedPart
+
+    if vels is None:
+        vels = [VEL[i % 3] for i in range(len(notes))]
 
     if types is not None:
         ppq, mpq = pq
@@ -608,7 +688,7 @@ def build_part(notes, ctrl, thr, pq, ticks, types=None, sos=None):
         nd = []
         for i, (p, ch, on, off) in enumerate(notes):
             ton, toff = note_types(scheme, i)
-            nd.append(dict(id="n%d" % i, midi_pitch=p, note_on=typed(ton, on), note_off=typed(toff, off), velocity=VEL[i % 3],
+            nd.append(dict(id="n%d" % i, midi_pitch=p, note_on=typed(ton, on), note_off=typed(toff, off), velocity=vels[i],
                            channel=ch, track=0))
         cd = [dict(type="sustain_pedal" if num == 64 else "soft_pedal", number=num, time=typed(ct, t), value=typed(vt, v),
                    track=0, channel=0) for num, t, v in ctrl]
@@ -617,7 +697,7 @@ def build_part(notes, ctrl, thr, pq, ticks, types=None, sos=None):
     ppq, mpq = pq
     nd = []
     for i, (p, ch, on, off) in enumerate(notes):
-        d = dict(id="n%d" % i, midi_pitch=p, note_on=float(on), note_off=float(off), velocity=VEL[i % 3], channel=ch, track=0)
+        d = dict(id="n%d" % i, midi_pitch=p, note_on=float(on), note_off=float(off), velocity=vels[i], channel=ch, track=0)
         if ticks:
             d["note_on_tick"] = int(on * 1000000 * ppq / mpq)
             d["note_off_tick"] = int(off * 1000000 * ppq / mpq)
@@ -762,6 +842,7 @@ def eval_pedal(case):
     pq = case["pq"]
     ticks = case["ticks"]
     types = case.get("types")
+    vels = case.get("vels")
     res = CaseResult(states=0, transitions=0, traces=0)
     mnotes = [(p, on, off) for p, ch, on, off in notes]
     refs = {}
@@ -771,7 +852,7 @@ def eval_pedal(case):
     for thr in thr_list:
         refs[thr] = M.ref_sound(mnotes, ped, thr)
         ctx = "fresh part, threshold %d" % thr
-        ok, pp = guarded(res, "construction-never-fails", build_part, notes, ctrl, thr, pq, ticks, types)
+        ok, pp = guarded(res, "construction-never-fails", build_part, notes, ctrl, thr, pq, ticks, types, None, vels)
         res.transitions += 1
         res.states += 1
         res.traces += 1
@@ -784,7 +865,7 @@ def eval_pedal(case):
         so = sound_offs(pp)
         exts.append(str(check_sound(res, notes, so, refs[thr], ctx)))
         fresh[thr] = so
-        res.transitions += check_note_array(res, pp, notes, pq, ctx, rebuild=thr in rebuild_at)
+        res.transitions += check_note_array(res, pp, notes, pq, ctx, rebuild=thr in rebuild_at, vels=vels)
     # raising the threshold never lengthens a note
     st = sorted(fresh)
     for a, b in zip(st, st[1:]):
@@ -795,7 +876,7 @@ def eval_pedal(case):
     # assignment walk on one part
     if fresh and len(fresh) == len(thr_list):
         start = thr_list[(len(notes) + len(ctrl)) % len(thr_list)]
-        ok, pp = guarded(res, "construction-never-fails", build_part, notes, ctrl, start, pq, ticks, types)
+        ok, pp = guarded(res, "construction-never-fails", build_part, notes, ctrl, start, pq, ticks, types, None, vels)
         res.transitions += 1
         if ok:
             hist = [start]
@@ -817,7 +898,7 @@ def eval_pedal(case):
                     break
                 check_sound(res, notes, so, refs[thr], "after assignments ..%r" % (hist[-3:],))
             if not res.violations:
-                res.transitions += check_note_array(res, pp, notes, pq, "after walk, threshold %d" % hist[-1], rebuild=False)
+                res.transitions += check_note_array(res, pp, notes, pq, "after walk, threshold %d" % hist[-1], rebuild=False, vels=vels)
     res.nontrivial = bool(notes) and bool(ped)
     res.outcome = "n%d ext=%s" % (len(notes), ",".join(exts))
     if types is not None:
